@@ -304,8 +304,10 @@ def known_classes(prop):
         return {}
     out = {}
     for e in kf.get("findings", []):
-        if e.get("status") == "known" and (e.get("property") == prop or prop in e.get("also", [])) and e.get("class"):
-            out[e["class"]] = e
+        if e.get("status") == "known" and (e.get("property") == prop or prop in e.get("also", [])):
+            wc = e.get("witness_class") or []
+            for cid in ([e["class"]] if e.get("class") else []) + ([wc] if isinstance(wc, str) else list(wc)):
+                out[cid] = e
     # findings of this family's generators that are reported to the coordinator but not yet triaged into
     # known_findings.json / repaired (harness/runs/pending_findings.json, witness in .work/new-defects-runs.md):
     # printed as KNOWN-FINDING lines on every run, never silently dropped
